@@ -4,6 +4,7 @@
   offset at zero, and an induction principle for invariants that are indexed by the hunk number.
 -/
 import PatchModel.Lemmas.Apply
+import PatchModel.Lemmas.Render
 namespace PatchModel.ApplyLoop
 open PatchModel PatchModel.Apply PatchModel.Splice
 
@@ -201,5 +202,189 @@ theorem applyPatch_induct {file : List Line} {p0 : Patch} {o : ApplyOpts} {tty :
   have := applyRest_induct (all := p'.hunks) P step p'.hunks s1 0 s3 h3 rfl (init s1 hi h0)
   rw [Nat.zero_add] at this
   exact this
+
+/-! ### without `-D` no item of the output is a bare terminator -/
+
+/-- **without `-D`** the output consists of lines of the file and added lines of the hunks only: the writer's rule (D97) acts on it
+    as `Render.terminate` acts on its lines (`Render.render_eq_renderText`) -/
+theorem applyPatch_noBare {file : List Line} {p0 : Patch} {o : ApplyOpts} {tty : Option (List Bool)} {r : ApplyResult}
+    (hD : o.define = []) (hr : applyPatch file p0 o tty = .ok r) : Render.NoBare r.out := by
+  obtain ⟨s3, h3, he, _⟩ := applyPatch_induct hr (fun _ s => Render.NoBare s.out)
+    (by intro s1 hi _; rw [hi.out]; exact Render.NoBare.nil)
+    (by
+      intro s s' num h _ hP hf
+      rcases finishHunk_ok' hf with ⟨l, emitted, cur, _, _, _, hw, hout, _⟩ | ⟨_, hout, _⟩
+      · rw [hout]
+        rw [hD, writeHunkD_nil] at hw
+        exact (hP.append (Render.noBare_copyRange _ _ _)).append (Render.noBare_writeHunk hw)
+      · rw [hout]; exact hP)
+  rw [he]
+  exact h3.append (Render.noBare_copyRange _ _ _)
+
+/-- the bytes of the output without `-D`: the intended bytes of its lines -/
+theorem applyPatch_render {file : List Line} {p0 : Patch} {o : ApplyOpts} {tty : Option (List Bool)} {r : ApplyResult}
+    (hD : o.define = []) (hr : applyPatch file p0 o tty = .ok r) (mode : NewlineOutput) :
+    render mode r.out = Render.renderText mode (r.out.map Out.line) :=
+  Render.render_eq_renderText mode r.out (applyPatch_noBare hD hr)
+
+/-! ### all lines terminated: so is everything that is written (with or without `-D`), and `render` is `renderLines` -/
+
+/-- the writer state of `write_define_hunk` holds terminated lines only -/
+def TermW (w : DefW) : Prop := (∀ o ∈ w.out, o.line.newline ≠ .none) ∧ w.lastUnterm = false ∧ w.lastTerm ≠ .none
+
+theorem terminatorOf_ne_none (l : Line) : terminatorOf l ≠ .none := by
+  unfold terminatorOf; split <;> simp_all
+
+theorem termW_directive {w : DefW} (t : Bytes) {nl : NewLine} (hw : TermW w) (hnl : nl ≠ .none) : TermW (w.directive t nl) := by
+  obtain ⟨h1, h2, h3⟩ := hw
+  refine ⟨?_, rfl, h3⟩
+  intro o ho
+  simp only [DefW.directive, h2, Bool.false_eq_true, if_false, List.mem_append, List.mem_singleton] at ho
+  rcases ho with ho | ho
+  · exact h1 o ho
+  · rw [ho]; exact hnl
+
+theorem termW_line {w : DefW} (o : Out) (hw : TermW w) (ho : o.line.newline ≠ .none) : TermW (w.line o) := by
+  obtain ⟨h1, h2, h3⟩ := hw
+  refine ⟨?_, ?_, terminatorOf_ne_none _⟩
+  · intro o' ho'
+    simp only [DefW.line, h2, Bool.false_eq_true, if_false, List.mem_append, List.mem_singleton] at ho'
+    rcases ho' with ho' | ho'
+    · exact h1 o' ho'
+    · rw [ho']; exact ho
+  · simp [DefW.line, ho]
+
+theorem defineLoop_terminated (file : List Line) (sym : Bytes) (hfile : ∀ l ∈ file, l.newline ≠ .none) :
+    ∀ (ls : List PatchLine) (cur : Nat) (st : DefState) (w : DefW) (r : DefW × Nat × DefState),
+      (∀ pl ∈ ls, pl.line.newline ≠ .none) → TermW w → defineLoop file sym ls cur st w = some r → TermW r.1 := by
+  intro ls
+  induction ls with
+  | nil =>
+    intro cur st w r _ hw h
+    simp only [defineLoop] at h
+    cases h; exact hw
+  | cons pl rest ih =>
+    intro cur st w r hpl hw h
+    have hrest : ∀ q ∈ rest, q.line.newline ≠ .none := fun q hq => hpl q (List.mem_cons_of_mem _ hq)
+    have hp := hpl pl List.mem_cons_self
+    rw [defineLoop] at h
+    split at h
+    · split at h
+      · cases h
+      · next l hl =>
+        have hlf := hfile l (List.mem_of_getElem? hl)
+        refine ih _ _ _ r hrest (termW_line (.fromFile cur l) ?_ hlf) h
+        split
+        · exact termW_directive _ hw (terminatorOf_ne_none _)
+        · exact hw
+    · split at h
+      · generalize hx : (if st = DefState.outside then _ else _ : DefW × DefState) = x at h
+        obtain ⟨w1, st1⟩ := x
+        refine ih _ _ _ r hrest (termW_line (.fromPatch pl.line) ?_ hp) h
+        split at hx
+        · cases hx; exact termW_directive _ hw (terminatorOf_ne_none _)
+        · split at hx
+          · cases hx; exact termW_directive _ hw (terminatorOf_ne_none _)
+          · split at hx
+            · cases hx
+              exact termW_directive _ (termW_directive _ hw (terminatorOf_ne_none _)) (terminatorOf_ne_none _)
+            · cases hx; exact hw
+      · split at h
+        · split at h
+          · cases h
+          · next l hl =>
+            have hlf := hfile l (List.mem_of_getElem? hl)
+            generalize hx : (if st = DefState.outside then _ else _ : DefW × DefState) = x at h
+            obtain ⟨w1, st1⟩ := x
+            refine ih _ _ _ r hrest (termW_line (.fromFile cur l) ?_ hlf) h
+            split at hx
+            · cases hx; exact termW_directive _ hw (terminatorOf_ne_none _)
+            · split at hx
+              · cases hx; exact termW_directive _ hw (terminatorOf_ne_none _)
+              · split at hx
+                · cases hx
+                  exact termW_directive _ (termW_directive _ hw (terminatorOf_ne_none _)) (terminatorOf_ne_none _)
+                · cases hx; exact hw
+        · exact ih _ _ _ r hrest hw h
+
+/-- what `write_define_hunk` emits is terminated throughout when the file and the hunk are -/
+theorem writeDefineHunk_terminated (file : List Line) (sym : Bytes) (hfile : ∀ l ∈ file, l.newline ≠ .none)
+    (ls : List PatchLine) (hls : ∀ pl ∈ ls, pl.line.newline ≠ .none) (p n : Nat) (outs : List Out)
+    (h : writeDefineHunk file sym ls p = some (outs, n)) : ∀ o ∈ outs, o.line.newline ≠ .none := by
+  unfold writeDefineHunk at h
+  split at h
+  · cases h
+  · next w cur st hd =>
+    have hg := defineLoop_terminated file sym hfile ls p .outside {} (w, cur, st) hls
+      ⟨by simp, rfl, by simp⟩ hd
+    simp only [Option.some.injEq, Prod.mk.injEq] at h
+    obtain ⟨h1, _⟩ := h
+    rw [← h1]
+    split
+    · exact (termW_directive dEndif hg hg.2.2).1
+    · exact hg.1
+
+theorem writeHunkD_terminated (file : List Line) (define : Bytes) (hfile : ∀ l ∈ file, l.newline ≠ .none)
+    (ls : List PatchLine) (hls : ∀ pl ∈ ls, pl.line.newline ≠ .none) (p n : Nat) (outs : List Out)
+    (h : writeHunkD file define ls p = some (outs, n)) : ∀ o ∈ outs, o.line.newline ≠ .none := by
+  unfold writeHunkD at h
+  split at h
+  · exact writeDefineHunk_terminated file define hfile ls hls p n outs h
+  · intro o ho
+    rcases Render.mem_writeHunk file ls p outs n h o ho with ⟨k, l, rfl, hk⟩ | ⟨pl, hpl, _, rfl⟩
+    · exact hfile l (List.mem_of_getElem? hk)
+    · exact hls pl hpl
+
+theorem reverseHunk_lines_terminated {h : Hunk} (hh : ∀ pl ∈ h.lines, pl.line.newline ≠ .none) :
+    ∀ pl ∈ (reverseHunk h).lines, pl.line.newline ≠ .none := by
+  intro pl hpl
+  simp only [reverseHunk, List.mem_map] at hpl
+  obtain ⟨q, hq, rfl⟩ := hpl
+  have := hh q hq
+  (repeat' split) <;> exact this
+
+/-- **a file and a patch all of whose lines are terminated** (any options, `-D` included, any outcome of the hunks): every
+    item written is terminated -/
+theorem applyPatch_all_terminated {file : List Line} {p0 : Patch} {o : ApplyOpts} {tty : Option (List Bool)} {r : ApplyResult}
+    (hfile : ∀ l ∈ file, l.newline ≠ .none) (hpatch : ∀ h ∈ p0.hunks, ∀ pl ∈ h.lines, pl.line.newline ≠ .none)
+    (hr : applyPatch file p0 o tty = .ok r) : ∀ x ∈ r.out, x.line.newline ≠ .none := by
+  have hstep : ∀ (hunks : List Hunk), (∀ h ∈ hunks, ∀ pl ∈ h.lines, pl.line.newline ≠ .none) →
+      ∀ h ∈ hunks.map reverseHunk, ∀ pl ∈ h.lines, pl.line.newline ≠ .none := by
+    intro hunks hh h hm
+    obtain ⟨h', hh', rfl⟩ := List.mem_map.1 hm
+    exact reverseHunk_lines_terminated (hh h' hh')
+  obtain ⟨s3, h3, he, hp⟩ := applyPatch_induct hr (fun _ s => ∀ x ∈ s.out, x.line.newline ≠ .none)
+    (by intro s1 hi _ x hx; rw [hi.out] at hx; cases hx)
+    (by
+      intro s s' num h hnum hP hf
+      have hh : ∀ pl ∈ h.lines, pl.line.newline ≠ .none := by
+        have hm : h ∈ r.patch.hunks := List.mem_of_getElem? hnum
+        obtain ⟨_, _, _, hp⟩ := applyPatch_induct hr (fun _ _ => True) (fun _ _ _ => trivial) (fun _ _ _ _ _ _ _ => trivial)
+        rcases hp with hp | hp | hp
+        · rw [hp] at hm; exact hpatch h hm
+        · rw [hp] at hm; exact hstep _ hpatch h hm
+        · rw [hp] at hm; exact hstep _ (hstep _ hpatch) h hm
+      rcases finishHunk_ok' hf with ⟨l, emitted, cur, _, _, _, hw, hout, _⟩ | ⟨_, hout, _⟩
+      · rw [hout]
+        intro x hx
+        rcases List.mem_append.1 hx with hx | hx
+        · rcases List.mem_append.1 hx with hx | hx
+          · exact hP x hx
+          · exact Render.copyRange_all_terminated_of_all hfile _ _ x hx
+        · exact writeHunkD_terminated file _ hfile _ hh _ _ _ hw x hx
+      · rw [hout]; exact hP)
+  rw [he]
+  intro x hx
+  rcases List.mem_append.1 hx with hx | hx
+  · exact h3 x hx
+  · exact Render.copyRange_all_terminated_of_all hfile _ _ x hx
+
+/-- … and the bytes of the output are its lines one by one -/
+theorem applyPatch_render_terminated {file : List Line} {p0 : Patch} {o : ApplyOpts} {tty : Option (List Bool)}
+    {r : ApplyResult} (hfile : ∀ l ∈ file, l.newline ≠ .none)
+    (hpatch : ∀ h ∈ p0.hunks, ∀ pl ∈ h.lines, pl.line.newline ≠ .none)
+    (hr : applyPatch file p0 o tty = .ok r) (mode : NewlineOutput) :
+    render mode r.out = renderLines mode (r.out.map Out.line) :=
+  Render.render_of_all_terminated mode (applyPatch_all_terminated hfile hpatch hr)
 
 end PatchModel.ApplyLoop
